@@ -11,6 +11,6 @@ for p in C03 C08 C09 C10 C14 C17 C18; do
   ./bin/verif selftest --prop $p --total "$n" --seed "${VERIF_SEED:-1}" || rc=2
 done
 for p in C15 C16; do
-  ./bin/verif-race selftest --prop $p --total $((n/3)) --seed "${VERIF_SEED:-1}" || rc=2
+  ./bin/verif-race-yield selftest --prop $p --total $((n/3)) --seed "${VERIF_SEED:-1}" || rc=2
 done
 exit $rc
